@@ -178,8 +178,13 @@ fn check_e1206_relation_has_no_missing_shift_properties(
         })
         .filter(|(vehicle_shift, relation)| {
             relation.jobs.iter().filter(|job_id| is_reserved_job_id(job_id)).any(|job_id| match job_id.as_str() {
-                "break" => vehicle_shift.breaks.is_none(),
-                "reload" => vehicle_shift.reloads.is_none(),
+                // NOTE: only optional breaks are jobs which can be referred by relation
+                "break" => !vehicle_shift
+                    .breaks
+                    .iter()
+                    .flatten()
+                    .any(|vehicle_break| matches!(vehicle_break, VehicleBreak::Optional { .. })),
+                "reload" => vehicle_shift.reloads.as_ref().is_none_or(|reloads| reloads.is_empty()),
                 "arrival" => vehicle_shift.end.is_none(),
                 _ => false,
             })
